@@ -2479,9 +2479,9 @@ def r02_7_build(cx, R, S):
                expect="an Integer entry holding the value widened to i32", got=got)
     po = duke.fn("put_optional", impl_ty=PW)
     if R.anchor("R02.7", "fn PoolWrite::put_optional", po):
-        res = T.Evaluator().run_fn(po, [T.sym("self"), T.V("None"), T.sym("f")])
+        res = EvalComb().run_fn(po, [T.sym("self"), T.V("None"), T.sym("f")])
         R.inst("R02.7", "put_optional:none=0", res == T.V("Ok", ("i", 0)), sp=po["sp"], expect="Ok(0)", got=T.show(res))
-        ev = T.Evaluator()
+        ev = EvalComb()
         res = ev.run_fn(po, [T.sym("self"), T.V("Some", T.sym("x")), T.sym("f")])
         fcalls = [n for k, n in ev.effects if k == "callnode" and (n.get("callee") or {}).get("r") == "local"]
         ok = len(fcalls) == 1 and len(fcalls[0]["args"]) == 2 and H.local_of(fcalls[0]["args"][1]) is not None
@@ -2540,7 +2540,54 @@ def _iterates(root, e, sid, depth=0):
     return init is not None and len(uses) == 1 and _iterates(root, init, sid, depth + 1)
 
 
-class EvalChecked(T.Evaluator):
+class EvalComb(T.Evaluator):
+    """Evaluator that also understands the Option / Result combinators on decided values (`x.map_or(d, f)` == `match x { Some(v) => f(v),
+    None => d }` etc.), applying closure arguments."""
+
+    def _apply(self, clo, vals):
+        _tag, node, cenv = clo
+        e2 = dict(cenv)
+        for p, a in zip(node["params"], vals):
+            T.match_pat(p, a, e2)
+        try:
+            return self.ev(node["body"], e2)
+        except T.Return as r:
+            return r.v
+
+    def _fn(self, f, vals, n):
+        if f[0] == "closure":
+            return self._apply(f, vals)
+        return T.sym("%s(%s)" % (T.show(f), ", ".join(T.show(v) for v in vals)))
+
+    def call(self, n, c, args, env):
+        name = H.callee_name(n)
+        if n.get("k") == "mcall" and args and args[0][0] == "v" and args[0][1] in ("Some", "None", "Ok", "Err"):
+            tag, payload = args[0][1], list(args[0][2])
+            pos = tag in ("Some", "Ok")
+            opt = tag in ("Some", "None")
+            if name in ("with_context", "context", "map_err") and not opt:
+                return args[0]
+            if name in ("map", "and_then") and len(args) == 2:
+                if not pos:
+                    return args[0]
+                r = self._fn(args[1], payload, n)
+                return T.V(tag, r) if name == "map" else r
+            if name == "map_or" and len(args) == 3:
+                return self._fn(args[2], payload, n) if pos else args[1]
+            if name == "map_or_else" and len(args) == 3:
+                return self._fn(args[2], payload, n) if pos else self._fn(args[1], [] if opt else payload, n)
+            if name == "unwrap_or" and len(args) == 2:
+                return payload[0] if pos and payload else args[1]
+            if name == "unwrap_or_else" and len(args) == 2:
+                return payload[0] if pos and payload else self._fn(args[1], [] if opt else payload, n)
+            if name == "or_else" and len(args) == 2:
+                return args[0] if pos else self._fn(args[1], [] if opt else payload, n)
+            if name in ("ok_or", "ok_or_else") and opt and len(args) == 2:
+                return T.V("Ok", *payload) if pos else T.V("Err", args[1] if name == "ok_or" else self._fn(args[1], [], n))
+        return super().call(n, c, args, env)
+
+
+class EvalChecked(EvalComb):
     """Evaluates a `write_usize_as_<t>` primitive for one outcome (Ok / Err) of the checked conversion `<t>::try_from(param)` /
     `param.try_into()`. The converted value is the opaque token MARK; a cast to another type makes a value opaque (not the token)."""
     MARK = T.sym("<converted>")
@@ -2558,31 +2605,12 @@ class EvalChecked(T.Evaluator):
             return T.sym("(%s as %s)" % (T.show(v), n.get("ty")))
         return super().ev(n, env)
 
-    def _apply(self, clo, vals):
-        _tag, node, cenv = clo
-        e2 = dict(cenv)
-        for p, a in zip(node["params"], vals):
-            T.match_pat(p, a, e2)
-        try:
-            return self.ev(node["body"], e2)
-        except T.Return as r:
-            return r.v
-
     def call(self, n, c, args, env):
         name = H.callee_name(n)
         res_ty = (n.get("ty") or "").replace(" ", "")
         if name in ("try_from", "try_into") and res_ty.startswith("core::result::Result<%s," % self.t) and args and args[-1] == T.sym(self.param):
             self.converted += 1
             return T.V("Ok", self.MARK) if self.outcome == "Ok" else T.V("Err", T.sym("<conversion error>"))
-        if args and args[0][0] == "v" and args[0][1] in ("Ok", "Err"):
-            isok = args[0][1] == "Ok"
-            if name in ("with_context", "context", "map_err", "or_else") and (isok or name != "or_else"):
-                return args[0]
-            if name in ("map", "and_then") and len(args) == 2 and args[1][0] == "closure":
-                if not isok:
-                    return args[0]
-                r = self._apply(args[1], list(args[0][2]))
-                return T.V("Ok", r) if name == "map" else r
         return super().call(n, c, args, env)
 
 
